@@ -33,11 +33,15 @@ def _acf_sum(p, n, tmax):
     return tot, c(0)
 
 
-def h_opa(B, n=5, p=2, npca=2, tau_max=1, names=None, flags=None):
+def h_opa(B, n=5, p=2, npca=2, tau_max=1, names=None, flags=None, witness_scale=None):
     kw = dict(flags or {})
     if names:
         kw.update({"sample_name": names[0], "feature_name": names[1]})
     X = da2d(B, "x", n, p)
+    if witness_scale:
+        # same symbolic generality; the WITNESS has the amplitude of e.g. a precipitation flux in kg m-2 s-1
+        X = X * float(witness_scale)
+        X.name = "v_x"
     model = M.single("OPA", n_modes=npca, tau_max=tau_max, n_pca_modes=npca, solver="full", **kw)
     r = B.completes("OPA.fit runs", lambda: model.fit(X, "time"))
     if r is None:
@@ -50,11 +54,11 @@ def h_opa(B, n=5, p=2, npca=2, tau_max=1, names=None, flags=None):
     G = P.T @ P
     for i in range(k):
         # zero time mean: only then 'orthogonal' below means 'uncorrelated' and c(tau) is an autocovariance
-        B.eq(f"score series {i + 1} has zero time mean", np.sum(P[:, i]), 0.0)
+        B.eq(f"score series {i + 1} has zero time mean", np.sum(P[:, i]), 0.0, scale_of=[P])
         for j in range(i + 1, k):
-            B.eq(f"score series {i + 1},{j + 1} are uncorrelated", G[i, j], 0.0)
+            B.eq(f"score series {i + 1},{j + 1} are uncorrelated", G[i, j], 0.0, scale_of=[P, P])
         if i > 0:
-            B.eq(f"score series {i + 1} has the same norm as series 1", G[i, i], G[0, 0])
+            B.eq(f"score series {i + 1} has the same norm as series 1", G[i, i], G[0, 0], scale_of=[P, P])
     V = model.data["filter_patterns"].transpose(model.feature_name, "mode").data
     W = model.data["components"].transpose(model.feature_name, "mode").data
     VW = V.T @ W
@@ -66,7 +70,12 @@ def h_opa(B, n=5, p=2, npca=2, tau_max=1, names=None, flags=None):
             B.eq(f"<filter pattern {i + 1}, OPP {i + 1}> equals <filter pattern 1, OPP 1>", VW[i, i], VW[0, 0])
     for i in range(k):
         tot, c0 = _acf_sum(P[:, i], n, tau_max)
-        B.eq(f"decorrelation time {i + 1} * c(0) == trapezoidal lag sum of its own score series", lam[i] * c0, tot)
+        B.eq(f"decorrelation time {i + 1} * c(0) == trapezoidal lag sum of its own score series", lam[i] * c0, tot, scale_of=[P, P])
+        try:
+            nz = bool(np.any(np.asarray(B.value(P[:, i])) != 0))
+        except Exception:  # noqa - no witness on this path
+            nz = True
+        B.check(f"score series {i + 1} is not identically zero (at the witness)", nz, "all-zero score series")
     if k > 1:
         B.ge("decorrelation times descending", lam[:-1], lam[1:])
 
@@ -80,6 +89,7 @@ def configs(tier):
     add("OPA|n5|tau1", n=5, tau_max=1)
     add("OPA|n6|tau2", n=6, tau_max=2)
     add("OPA|n5|tau1|names=s,f", n=5, tau_max=1, names=("s", "f"))
+    add("OPA|n5|tau1|witness scale 1e-7", n=5, tau_max=1, witness_scale=1e-7)
     add("OPA|n5|tau1|center=False", n=5, tau_max=1, flags={"center": False})  # the series are anomalies whatever the model's own centring flag
     if tier == "thorough":
         add("OPA|n7|p3|npca3|tau2", n=7, p=3, npca=3, tau_max=2)
